@@ -136,6 +136,11 @@ def run_case(ns, rec, chunks, plans, trailing_break, prelude=()):
                 if 0xFF in app:
                     rec.violation("break-byte-in-field", "field %r was written as %s which contains the break byte" % (f, app.hex()), case)
                     return
+            # other connections have writers of their own: one is created, configured and used between two chunks
+            other = ns.EoWriter()
+            other.string_sanitization_mode = (ci % 2 == 1)
+            other.add_string("x\xff")
+            rec.count("other-writers-used-in-between")
             if ci < len(chunks) - 1 or trailing_break:
                 w.add_byte(0xFF)
     except Exception as ex:
